@@ -12,7 +12,18 @@ Correspondence streams (model = lean/Drv/C20.lean over Model.Schedule):
            thorough: every year 1900..2154 x every pattern class (sharded),
            quick: every pattern class over one year (rotating with the seed)
   evalday  LocalScheduleInterpreter.eval of random schedules at every minute
-           of sampled days plus every entry time -1/0/+1 hundredth
+           of sampled days plus every entry time -1/0/+1 hundredth.  All
+           questions of a group go to ONE interpreter object, in ascending,
+           descending, shuffled, look-at-the-reported-transition-and-come-back
+           and date-alternating orders (+ a sparse second pass in the opposite
+           direction); then a chain of up to 6 mutations of the state `eval`
+           reads, each one bracketed by a question about an instant it affects
+           immediately before and immediately after it, WITHOUT a monitored write: the dateList of a referenced calendar
+           object (written or changed in place), listOfTimeValues /
+           eventPriority / period of a special event, a daySchedule, the ends of
+           effectivePeriod, the value of scheduleDefault.  eval must equal the
+           model and the BACnet rule for the configuration as it is at that
+           moment, and answer the same question the same way every time
   evalbad  the same for malformed input (unsorted lists, wildcard times,
            priority 0/17, missing calendar, empty choice, bad weekday/month)
   runbad   timer runs of malformed configurations (the exceptions process_task lets escape,
@@ -147,7 +158,7 @@ def mk_exc(exc, cals):
                 period = SpecialEventPeriod(calendarReference=('calendar', 4000))   # no such object
             else:
                 inst = 100 + len(cals)
-                cals.append((inst, p["l"]))
+                cals.append((inst, p["l"], len(out)))
                 period = SpecialEventPeriod(calendarReference=('calendar', inst))
         else:
             period = None
@@ -175,8 +186,9 @@ class Real_:
             kw["weeklySchedule"] = mk_weekly(cfg["weekly"])
         if cfg["exc"] is not None:
             kw["exceptionSchedule"] = mk_exc(cfg["exc"], self.cals)
-        for inst, entries in self.cals:
-            self._add_cal(inst, entries)
+        self.cal_of_exc = {}
+        for inst, entries, idx in self.cals:
+            self.cal_of_exc[idx] = self._add_cal(inst, entries)
         self.so = LocalScheduleObject(**kw)
         self.app.add_object(self.so)
         self.objs.append(self.so)
@@ -187,14 +199,44 @@ class Real_:
                              presentValue=False, dateList=[mk_entry(x) for x in entries])
         self.app.add_object(cal)
         self.objs.append(cal)
+        return cal
 
     def write(self, cfg):
         """write weeklySchedule / exceptionSchedule (whichever differs is enough: both are written)"""
         n0 = len(self.cals)
         exc = mk_exc(cfg["exc"], self.cals) if cfg["exc"] is not None else None
-        for inst, entries in self.cals[n0:]:
-            self._add_cal(inst, entries)
+        self.cal_of_exc = {}
+        for inst, entries, idx in self.cals[n0:]:
+            self.cal_of_exc[idx] = self._add_cal(inst, entries)
         return exc
+
+    def mutate(self, mod):
+        """change state `eval` reads WITHOUT a write to a monitored property of the
+        schedule object (so `schedule_changed` does not run)"""
+        from bacpypes.basetypes import SpecialEventPeriod
+        so, k = self.so, mod["k"]
+        if k == "cal":
+            cal = self.cal_of_exc[mod["exc"]]
+            new = [mk_entry(x) for x in mod["l"]]
+            if mod["how"] == "inplace":
+                cal.dateList[:] = new
+            else:
+                cal.dateList = new                       # a write to the CALENDAR object
+        elif k == "tvs":
+            so.exceptionSchedule[mod["exc"] + 1].listOfTimeValues = mk_tvs(mod["tv"])
+        elif k == "day":
+            so.weeklySchedule[mod["w"] + 1].daySchedule = mk_tvs(mod["tv"])
+        elif k == "prio":
+            so.exceptionSchedule[mod["exc"] + 1].eventPriority = mod["prio"]
+        elif k == "period":
+            so.exceptionSchedule[mod["exc"] + 1].period = SpecialEventPeriod(calendarEntry=mk_entry(mod["e"]))
+        elif k == "eff":
+            so.effectivePeriod.startDate = tuple(mod["eff"][0])
+            so.effectivePeriod.endDate = tuple(mod["eff"][1])
+        elif k == "def":
+            so.scheduleDefault.value = float(mod["def"])
+        else:
+            raise core.Infra("unknown mutation %r" % (mod,))
 
     def close(self):
         for o in self.objs:
@@ -724,10 +766,10 @@ def sig_evalday(case, m):
     return (tuple(kinds), min(ntr, 6), len(case["cfg"]["exc"] or []))
 
 
-def oracle_evalday(ctx, case, res, d, wants=None):
+def oracle_evalday(ctx, case, res, d, wants=None, where=None):
     """value = BACnet rule; next transition strictly later; nothing changes before it"""
     cfg, times = case["cfg"], case["times"]
-    where = {"stream": "evalday", "case": {k: case[k] for k in ("op", "cfg", "d")}}
+    where = where or {"stream": "evalday", "case": {k: case[k] for k in ("op", "cfg", "d")}}
     if wants is None:
         at = ref_day(cfg, d)
         wants = [at(t) for t in times]
@@ -767,32 +809,213 @@ def oracle_evalday(ctx, case, res, d, wants=None):
         prev_i = i
 
 
-def run_evalday(ctx, rng, n_cfg, n_days, label="evalday"):
-    cases, impl, wants = [], [], []
-    for _ in range(n_cfg):
-        focus = D1900 + datetime.timedelta(days=rng.choice([rng.randrange(0, 93138), rng.randrange(25567, 60000)]))
-        if rng.random() < 0.1:      # around a leap day / year end
-            yy = rng.choice([1904, 2000, 2024, 2100, 1900, 2154])
-            focus = rng.choice([datetime.date(yy, 2, 28), datetime.date(yy, 12, 31), datetime.date(yy, 3, 1) - datetime.timedelta(days=1)])
-        if focus.year > 2154 or (focus.year == 2154 and focus.month == 12 and focus.day > 25):
-            focus = datetime.date(2154, 12, 20)
-        cfg = gen_cfg(rng, focus)
-        real = Real_(cfg)
-        if real.so.reliability != 'noFaultDetected':
-            ctx.fail("valid-config-flagged", {"stream": label, "case": {"cfg": cfg}},
-                     "a valid configuration is flagged %s: the interpreter never runs" % real.so.reliability)
-        times = day_times(cfg)
-        for k in range(n_days):
-            d = focus + datetime.timedelta(days=k)
-            c = {"op": "evalday", "cfg": cfg, "d": list(tup(d)), "times": [list(t) for t in times]}
-            res = [real.eval(c["d"], t) for t in times]
+MODES = ["asc", "desc", "shuffle", "probe-back", "alt-desc", "alt-shuffle"]
+
+
+def apply_mod(cfg, mod):
+    """the configuration after an in-place mutation (see Real_.mutate)"""
+    cfg = json.loads(json.dumps(cfg))
+    k = mod["k"]
+    if k == "cal":
+        cfg["exc"][mod["exc"]]["p"]["l"] = mod["l"]
+    elif k == "tvs":
+        cfg["exc"][mod["exc"]]["tv"] = mod["tv"]
+    elif k == "day":
+        cfg["weekly"][mod["w"]] = mod["tv"]
+    elif k == "prio":
+        cfg["exc"][mod["exc"]]["prio"] = mod["prio"]
+    elif k == "period":
+        cfg["exc"][mod["exc"]]["p"] = {"k": "entry", "e": mod["e"]}
+    elif k == "eff":
+        cfg["eff"] = mod["eff"]
+    elif k == "def":
+        cfg["def"] = mod["def"]
+    return cfg
+
+
+def gen_mod(rng, cfg, focus, ndays):
+    """one mutation of state that `eval` reads but no monitor of the schedule object sees"""
+    exc = cfg["exc"] or []
+    refs = [i for i, se in enumerate(exc) if se["p"]["k"] == "ref" and se["p"]["l"] is not None]
+    ents = [i for i, se in enumerate(exc) if se["p"]["k"] == "entry"]
+    fk = focus + datetime.timedelta(days=rng.randrange(0, ndays))
+    r = rng.random()
+    if refs and r < 0.5:
+        i = rng.choice(refs)
+        old = exc[i]["p"]["l"]
+        new = rng.choice([[], [{"k": "date", "p": list(OPEN)}], [gen_entry(rng, fk)], old + [gen_entry(rng, fk)],
+                          old[1:], [{"k": "date", "p": list(tup(fk))}]])
+        if new == old:
+            new = [] if old else [{"k": "date", "p": list(OPEN)}]
+        return {"k": "cal", "exc": i, "l": new, "how": rng.choice(["write", "inplace"])}
+    if exc and r < 0.65:
+        i = rng.randrange(len(exc))
+        return {"k": "tvs", "exc": i, "tv": gen_tvs(rng, rng.randrange(0, 5), 1500 + 10 * i)}
+    if exc and r < 0.72:
+        return {"k": "prio", "exc": rng.randrange(len(exc)), "prio": rng.choice([1, 5, 7, 16])}
+    if ents and r < 0.8:
+        return {"k": "period", "exc": rng.choice(ents), "e": gen_entry(rng, fk)}
+    if cfg["weekly"] and r < 0.9:
+        return {"k": "day", "w": rng.randrange(7), "tv": gen_tvs(rng, rng.randrange(0, 5), 500 + 10 * rng.randrange(7))}
+    if r < 0.95:
+        return {"k": "def", "def": rng.choice([d for d in (0, 1, 2, 3) if d != cfg["def"]])}
+    return {"k": "eff", "eff": rng.choice([[list(OPEN), list(OPEN)], [list(tup(fk))[:3] + [255], list(OPEN)],
+                                           [list(OPEN), list(tup(fk))[:3] + [255]]])}
+
+
+def gen_group(rng, n_days):
+    """one configuration, the days it is asked about, the order of the questions and the
+    in-place mutations between the rounds of questions — all on ONE interpreter object"""
+    focus = D1900 + datetime.timedelta(days=rng.choice([rng.randrange(0, 93138), rng.randrange(25567, 60000)]))
+    if rng.random() < 0.1:      # around a leap day / year end
+        yy = rng.choice([1904, 2000, 2024, 2100, 1900, 2154])
+        focus = rng.choice([datetime.date(yy, 2, 28), datetime.date(yy, 12, 31), datetime.date(yy, 3, 1) - datetime.timedelta(days=1)])
+    if focus.year > 2154 or (focus.year == 2154 and focus.month == 12 and focus.day > 25):
+        focus = datetime.date(2154, 12, 20)
+    cfg = gen_cfg(rng, focus)
+    if rng.random() < 0.4:
+        # an exception that is in force through a calendar object (so that calendar changes matter)
+        se = {"p": {"k": "ref", "l": rng.choice([[{"k": "date", "p": list(OPEN)}], [], [gen_entry(rng, focus)]])},
+              "tv": gen_tvs(rng, rng.randrange(1, 4), 1040), "prio": rng.choice([1, 5, 7, 16])}
+        cfg["exc"] = (cfg["exc"] or [])[:3] + [se]
+    g = {"cfg": cfg, "days": [list(tup(focus + datetime.timedelta(days=k))) for k in range(n_days)],
+         "mode": rng.choice(MODES), "seed": rng.randrange(1 << 30), "mods": []}
+    cur = cfg
+    for _ in range(rng.choice([0, 0, 2, 4, 6])):
+        m = gen_mod(rng, cur, focus, n_days)
+        g["mods"].append(m)
+        cur = apply_mod(cur, m)
+    return g
+
+
+def ask_in_order(ctx, real, g, ph, days, times, rnd, where):
+    """evaluate every (day, time) on the SAME interpreter in the group's order;
+    returns res[k][i]; any question asked twice must get the same answer"""
+    nd, nt = len(days), len(times)
+    mode = g["mode"]
+    q = [(k, i) for k in range(nd) for i in range(nt)]
+    if mode == "desc":
+        q.reverse()
+    elif mode == "shuffle":
+        rnd.shuffle(q)
+    elif mode == "alt-desc":
+        q = [(k, i) for i in reversed(range(nt)) for k in range(nd)]
+    elif mode == "alt-shuffle":
+        idx = list(range(nt)); rnd.shuffle(idx)
+        q = [(k, i) for i in idx for k in range(nd)]
+    res = [[None] * nt for _ in range(nd)]
+    told = [False]
+
+    def differs(k, i, first, again, how):
+        if not told[0]:
+            told[0] = True
+            ctx.fail("eval-depends-on-history", where,
+                     "eval(%r, %r) answered %r, then %r %s — same object, same configuration" % (
+                         tuple(days[k]), tuple(times[i]), first, again, how), phase=ph, time=list(times[i]))
+    for n, (k, i) in enumerate(q):
+        r = real.eval(days[k], times[i])
+        if mode == "probe-back" and n % 3 == 0 and isinstance(r, list):
+            nxt = r[1:]
+            if tuple(nxt) < (24, 0, 0, 0):
+                real.eval(days[k], nxt)                    # look at the transition ...
+                again = real.eval(days[k], times[i])       # ... and come back
+                if again != r:
+                    differs(k, i, r, again, "after looking at the reported transition")
+                r = again
+        res[k][i] = r
+    # a second, sparse pass in the opposite direction
+    back = q[::-1][::17] if mode in ("asc", "probe-back") else q[::23]
+    for (k, i) in back:
+        again = real.eval(days[k], times[i])
+        if again != res[k][i]:
+            differs(k, i, res[k][i], again, "when asked again later")
+            res[k][i] = again
+    return res
+
+
+def pick_affected(rnd, old, new, dates):
+    """an instant (day index, time) at which the mutation changes the prescribed value
+    (a random one if it changes nothing on the sampled days)"""
+    grid = [[h, m, 0, 0] for h in range(24) for m in range(0, 60, 5)]
+    for cfg in (old, new):
+        for l in list(cfg["weekly"] or []) + [se["tv"] for se in (cfg["exc"] or [])]:
+            grid += [t for t, _v in l if 255 not in t and t[0] < 24]
+    hits = []
+    for k, d in enumerate(dates):
+        a, b = ref_day(old, d), ref_day(new, d)
+        hits += [(k, t) for t in grid if a(t) != b(t)]
+    if hits:
+        return rnd.choice(hits), True
+    return (rnd.randrange(len(dates)), rnd.choice(grid)), False
+
+
+def run_group(ctx, g, label, cases, impl, wants):
+    """phase 0: every instant of every day in the group's order; then for every mutation:
+    ask about an instant the mutation affects, mutate in place, ask the SAME instant (and a
+    few later ones) again at once; finally every instant once more under the final state"""
+    cfg = g["cfg"]
+    where = {"stream": "evalseq", "case": g}
+    real = Real_(cfg)
+    if real.so.reliability != 'noFaultDetected':
+        ctx.fail("valid-config-flagged", where,
+                 "a valid configuration is flagged %s: the interpreter never runs" % real.so.reliability)
+    import random as _random
+    rnd = _random.Random(g["seed"])
+    dates = [datetime.date(d[0] + 1900, d[1], d[2]) for d in g["days"]]
+
+    def full(ph, mod):
+        times = [list(t) for t in day_times(cfg)]
+        res = ask_in_order(ctx, real, g, ph, g["days"], times, rnd, where)
+        for k, d in enumerate(dates):
+            c = {"op": "evalday", "cfg": cfg, "d": g["days"][k], "times": times,
+                 "mode": g["mode"], "phase": ph, "mod": mod}
             at = ref_day(cfg, d)
             w = [at(t) for t in times]
             wants.append(w)
-            oracle_evalday(ctx, c, res, d, w)
-            cases.append(c); impl.append({"r": "ok", "res": res})
-        real.close()
-    finish_eval(ctx, label, cases, impl, spec=wants)
+            oracle_evalday(ctx, c, res[k], d, w, where=dict(where, phase=ph, d=g["days"][k]))
+            cases.append(c); impl.append({"r": "ok", "res": res[k]})
+
+    full(0, None)
+    for j, mod in enumerate(g["mods"]):
+        new = apply_mod(cfg, mod)
+        (k, t), affected = pick_affected(rnd, cfg, new, dates)
+        before = real.eval(g["days"][k], t)            # the last question before the mutation
+        want0 = ref_day(cfg, dates[k])(t)
+        if want0 is not None and not isinstance(before, dict) and ("out" if before is None else before[0]) != want0:
+            ctx.fail("wrong-value", dict(where, phase=j + 1, d=g["days"][k]),
+                     "before mutation %d: at %s %r eval gives %r, BACnet prescribes %r" % (
+                         j, dates[k].isoformat(), tuple(t), before, want0), time=list(t))
+        real.mutate(mod)
+        cfg = new
+        cs = ((t[0] * 60 + t[1]) * 60 + t[2]) * 100 + t[3]
+        later = sorted(set([cs] + [min(8639999, cs + x) for x in (1, rnd.randrange(2, 6000), rnd.randrange(6000, 360000))]))
+        times = [[c // 360000, c // 6000 % 60, c // 100 % 60, c % 100] for c in later]
+        res = [real.eval(g["days"][k], x) for x in times]   # the same instant first, at once
+        c = {"op": "evalday", "cfg": cfg, "d": g["days"][k], "times": times,
+             "mode": "after-" + mod["k"], "phase": j + 1, "mod": mod["k"] + ("+" if affected else "-")}
+        at = ref_day(cfg, dates[k])
+        w = [at(x) for x in times]
+        wants.append(w)
+        oracle_evalday(ctx, c, res, dates[k], w, where=dict(where, phase=j + 1, d=g["days"][k],
+                                                             after_mutation=mod))
+        cases.append(c); impl.append({"r": "ok", "res": res})
+    if g["mods"]:
+        full(len(g["mods"]) + 1, "final")
+    real.close()
+
+
+def sig_evalseq(case, m):
+    return (case.get("mode"), case.get("mod")) + sig_evalday(case, m)
+
+
+def run_evalday(ctx, rng, n_cfg, n_days, label="evalday", groups=None):
+    """every question of a group is put to ONE interpreter object, in ascending, descending,
+    shuffled, look-ahead-and-back and date-alternating orders, with in-place mutations of
+    referenced state between rounds; the model/spec are asked per (configuration, day)"""
+    cases, impl, wants = [], [], []
+    for g in (groups if groups is not None else [gen_group(rng, n_days) for _ in range(n_cfg)]):
+        run_group(ctx, g, label, cases, impl, wants)
+    finish_eval(ctx, label, cases, impl, sig=sig_evalseq, spec=wants)
 
 
 def finish_eval(ctx, label, cases, impl, sig=sig_evalday, spec=None):
@@ -1136,6 +1359,8 @@ def replay_case(ctx, w, label):
             oracle_evalday(ctx, c, res, dt)
         finish_eval(ctx, label, [c], [{"r": "ok", "res": res}],
                     sig=lambda c, m: ("evalday",) + sig_evalday(c, m))
+    elif stream == "evalseq":
+        run_evalday(ctx, None, 0, 0, label=label, groups=[{k: case[k] for k in ("cfg", "days", "mode", "seed", "mods")}])
     elif stream == "run":
         run_runs(ctx, None, 0, label=label, cases=[case])
     else:
@@ -1147,7 +1372,7 @@ def shard_eval(ctx, spec):
     kind, idx, n = spec
     rng = ctx.sub_rng("shard-%s-%d" % (kind, idx))
     if kind == "evalday":
-        run_evalday(ctx, rng, n, 4)
+        run_evalday(ctx, rng, n, 3)
     elif kind == "evalbad":
         run_evalbad(ctx, rng, n)
     elif kind == "runbad":
@@ -1165,7 +1390,7 @@ def run(ctx):
         run_now(ctx, rng)
         run_years(ctx, [(ctx.seed * 37 + 100) % 255], "year")
         run_years(ctx, list(range(255)), "year-monthlen", focus=True)
-        run_evalday(ctx, rng, 110, 2)
+        run_evalday(ctx, rng, 90, 2)
         run_evalbad(ctx, rng, 120)
         run_runs(ctx, rng, 60)
         run_runs(ctx, rng, 40, label="runbad", bad=True)
@@ -1196,7 +1421,7 @@ def replay(ctx, payload):
     if not case:
         raise core.Infra("nothing to replay")
     if "stream" in case and "case" in case:
-        replay_case(ctx, case, "replay")
+        replay_case(ctx, {"stream": case["stream"], "case": case["case"]}, "replay")
     elif case.get("op") == "year":
         replay_case(ctx, {"stream": "year", "case": case}, "replay")
     elif case.get("op") == "evalday":
